@@ -127,7 +127,17 @@ func runC20(c *Ctx) error {
 			continue
 		}
 		wire := enc[0].B0()
-		if rng.Chance(1, 3) { // accepted mutations as well
+		if i%9 == 0 {
+			// an EAP payload whose EAP-AKA' packet comes from an independent encoder: attributes the library does not
+			// interpret are carried through by the decoder (its attribute MAP then has entries only decoding can create)
+			pkt, _ := genWirePacket(rng)
+			h := make([]byte, 28)
+			copy(h, rng.Bytes(16))
+			h[16], h[17], h[18] = 48, 0x20, 35
+			n := 28 + 4 + len(pkt)
+			h[24], h[25], h[26], h[27] = byte(n>>24), byte(n>>16), byte(n>>8), byte(n)
+			wire = append(append(h, 0, 0, byte((4+len(pkt))>>8), byte(4+len(pkt))), pkt...)
+		} else if rng.Chance(1, 3) { // accepted mutations as well
 			w2 := mutate(rng, wire)
 			if okBody(implDecode(exact(w2))) != nil {
 				wire = w2
@@ -162,6 +172,19 @@ func runC20(c *Ctx) error {
 		}
 		if b := okBody(mo); b == nil || b[0].At(2).String() != before {
 			r.Add(Finding{Kind: "correspondence", What: "decoded payloads differ from Impl.decode", Case: cs, Expected: mo, Observed: before})
+		}
+		// ---- the decoded message is encoded repeatedly: byte-identical, payloads untouched ----
+		if d1, err := m.Encode(); err == nil {
+			for k := 0; k < 5; k++ {
+				dk, errk := m.Encode()
+				if errk != nil || !bytes.Equal(dk, d1) {
+					fail("repeated encodings of a decoded message are not byte-identical", cs, hx(d1), hx(dk))
+					break
+				}
+			}
+			if after := sxPayloads(m.Payloads).String(); after != before {
+				fail("Encode alters a payload of a decoded message", cs, before, after)
+			}
 		}
 		// ---- encode: purity, determinism, fresh buffer ----
 		gm := goMsg(msx)
